@@ -15,6 +15,25 @@ TEXT = {
          "parent<->children consistency, uniqueness, and the typed views as ordered partitions, hence every reachable state is consistent",
          "model looks holders up through _parent (code: DFS over children) - equal under the invariant; copy() under C18; acyclicity by oracle",
          "Lean 4 invariant by induction over operation histories on a hand-written state-machine model; differential correspondence incl. rejected calls; invariant oracle on real objects"),
+ "C03": ("proof: for every local field function, pose path and rigid motion, the frame change of getBH_level1 and the collection sum are covariant (position observers); "
+         "model tied by exact correspondence; all 10 classes swept by the oracle",
+         "exact real arithmetic; numpy row order assumed; float rounding by oracle 1e-7",
+         "Lean 4 theorems over a group acting on an additive group + exact differential correspondence of the marshalling model"),
+ "C04": ("proof: the three sensor back-rotation code paths equal R_k(m)^-1 on the sensor's own pixel slice, handedness flips its slice only, "
+         "pixel positions are per-sensor, and the cumulative-index split hands pixel_agg exactly each sensor's pixels for any shapes",
+         "stages proved separately, composition tied by exact correspondence; numpy reductions other than sum/min/max by oracle only",
+         "Lean 4 theorems on the marshalling model + exact differential correspondence"),
+ "C05": ("proof: the slice-sum-delete loop returns per entry the sum over its nested leaves for any mix/order/nesting; frame change is additive and homogeneous in the local field",
+         "kernel linearity per class is kernel-level (oracle sweeps all classes, scalings 1e-6..1e6)",
+         "Lean 4 theorems (loop invariant by induction over the source list) + exact differential correspondence"),
+ "C06": ("proof (partial): per-element formula of the marshalling model: row m of source l is its own field at its own clamped pose at that pixel; independent of other sensors; "
+         "shape/squeeze modelled and tied by exact correspondence; kernels' batch-level control flow pending",
+         "numpy row order assumed; kernel rowwise independence observed by the element-vs-single-call oracle over all classes and fields",
+         "Lean 4 theorems on the marshalling model + exact differential correspondence + element-wise oracle"),
+ "C08": ("proof: for every fault schedule of the computation between path tiling and restore, object paths are exactly restored; the position of the restore "
+         "(finally block, saved originals) is extracted from the source AST on every run so that removing it breaks the proof",
+         "attributes other than the paths and caller arrays are not in the model: deep-snapshot oracle over all failure points of the property text",
+         "Lean 4 theorem over a state-machine model with generated exit skeleton (Gen/Exits) + snapshot oracle with fault injection"),
 }
 props = [json.loads(l) for l in open("properties.jsonl")]
 checks = []
